@@ -67,7 +67,7 @@ def _work(chunk):
     plan = []   # (case idx, stage) per CHK line index
     cases = []
     for idx, tag, succ in chunk:
-        scfg = export.mk_scfg(succ)
+        scfg = export.mk_scfg(succ, payload="bytecode" if idx % 3 == 1 else "basic")
         gtop, gline = export.export(scfg)
         t0 = time.perf_counter()
         st = run_stages(scfg)
@@ -109,6 +109,56 @@ def run_graphs(inputs, nproc=None):
         parts = pool.map(_work, chunks)
     out = [c for p in parts for c in p]
     out.sort(key=lambda c: c["idx"])
+    return out
+
+
+def derived_inputs(tier, seed):
+    """G4 / G5: closed CFGs derived from real bytecode (standard-library functions) and from
+    source (generated functions through the AST front end), as successor-index tuples."""
+    import dis
+    import random
+    import types
+    import importlib
+    from harness import pygen
+    common.import_repo()
+    from numba_scfg.core.datastructures.flow_info import FlowInfo
+    from numba_scfg.core.datastructures.ast_transforms import AST2SCFG
+    rng = random.Random(seed * 613 + 4)
+    out = []
+
+    def add(tag, scfg):
+        names = list(scfg.graph)
+        idx = {n: i for i, n in enumerate(names)}
+        try:
+            succ = tuple(tuple(idx[t] for t in scfg.graph[n]._jump_targets) for n in names)
+        except KeyError:
+            return
+        if 2 <= len(succ) <= (24 if tier == "quick" else 40) and gen.closed(succ):
+            out.append((tag, succ))
+    mods = "argparse ast bisect calendar cmd codecs collections copy csv difflib fnmatch fractions heapq inspect json.decoder " \
+           "keyword linecache numbers operator pprint random shlex statistics string textwrap tokenize types".split()
+    codes = []
+    for m in mods:
+        try:
+            mod = importlib.import_module(m)
+        except Exception:  # noqa: BLE001
+            continue
+        for o in list(vars(mod).values()):
+            co = getattr(getattr(o, "__func__", o), "__code__", None)
+            if isinstance(co, types.CodeType) and getattr(o, "__module__", None) == m and not getattr(co, "co_exceptiontable", b""):
+                codes.append(co)
+    rng.shuffle(codes)
+    for co in codes[: (250 if tier == "quick" else 2000)]:
+        try:
+            add("G4-bytecode", FlowInfo.from_bytecode(dis.Bytecode(co)).build_basicblocks())
+        except Exception:  # noqa: BLE001
+            continue
+    for _ in range(250 if tier == "quick" else 3000):
+        src = pygen.gen_program(rng, rng.randint(3, 10), depth=rng.choice([2, 3, 4]))
+        try:
+            add("G5-source", AST2SCFG(src))
+        except Exception:  # noqa: BLE001
+            continue
     return out
 
 
